@@ -42,6 +42,9 @@ def pc_table(d, which="pc"):
     """value table of the per-interval parameter: one column per interval (+1 for control+).
     which='pcq': the second (always include_last) parameter present when d['pc']=='both'"""
     if which == "pcq":
+        v = d.get("pvals", {}).get("pcq")
+        if v is not None:
+            return np.full((1, d["N"] + 1), float(v))      # a scalar given to every node
         return np.array([[0.2 + 0.19 * k + 0.04 * k * k for k in range(d["N"] + 1)]])
     n = d["N"] + (1 if d[which] == "control+" else 0)
     base = 0.3 if which == "pc" else 0.2
@@ -144,6 +147,12 @@ def rhs(m, s, d):
     return out
 
 
+def quad_integrand(m, s, d):
+    """integrand of the user-declared quadrature state q (d['quad'])"""
+    x0 = m.el(s["x"], 0)
+    return 0.5 + x0 * x0 + 0.3 * s["t"]
+
+
 def alg(m, s, d):
     """residual of the algebraic equation (index 1 in z)"""
     z = s["z"]
@@ -235,6 +244,24 @@ def c_offm2(m, pt, d):
     return ("le", _x0(m, pt) - pt.offset(_x0, -2), 0.6)
 
 
+def c_xq_le(m, pt, d):
+    # a user quadrature state mixed with a state (needs d['quad'])
+    return ("le", _x0(m, pt) - 2.0 * pt.s["q"], 0.9)
+
+
+def c_diff2(m, pt, d):
+    # operands at several different offsets, the negative one first
+    return ("le", pt.prev(_x0) - 2 * _x0(m, pt) + pt.next(_x0), 0.65)
+
+
+def c_diff2_rev(m, pt, d):
+    return ("le", pt.next(_x0) - 2 * _x0(m, pt) + pt.prev(_x0), 0.65)
+
+
+def c_prev_offm2(m, pt, d):
+    return ("le", pt.prev(_x0) - pt.offset(_x0, -2) + 0.1 * _x0(m, pt), 0.7)
+
+
 def c_next_pcq(m, pt, d):
     # offset operand that contains an include_last per-interval parameter (own entry at the final node)
     g = lambda m_, p_: _x0(m_, p_) + p_.s["pcq"]
@@ -313,6 +340,16 @@ def _sq(m, pt):
 
 def o_mayer_tf(m, pt, d):
     return pt.at_tf(lambda m_, p_: _sq(m_, p_) + 0.3 * _x0(m_, p_))
+
+
+def o_mayer_T(m, pt, d):
+    # horizon symbols INSIDE a boundary evaluation (normalised quantities)
+    return pt.at_tf(lambda m_, p_: _x0(m_, p_) * p_.s["T"] + 0.2 * (p_.s["t"] - p_.s["t0"]) / p_.s["T"])
+
+
+def o_sum_T(m, pt, d):
+    # ... and inside sum / integral on the control grid
+    return pt.sum(lambda m_, p_: _x0(m_, p_) * p_.s["T"] + (p_.s["t"] - p_.s["t0"]) / p_.s["T"]) + pt.integral_control(lambda m_, p_: 0.3 * _x0(m_, p_) / p_.s["T"])
 
 
 def o_mayer_t0(m, pt, d):
@@ -665,6 +702,10 @@ def declare(d, ocp=None, stage=None, solver=True, method=True, with_cons=True, w
                 st.set_der(s[name], f[name], scale=scl("der_" + name, s[name].shape))
     if d["alg"]:
         st.add_alg(alg(CA, s, d), scale=sc.get("alg", 1))
+    if d.get("quad"):
+        # a quadrature state declared by the user (usable in constraints like any state)
+        s["q"] = st.state(quad=True)
+        st.set_der(s["q"], quad_integrand(CA, s, d))
     # parameter values
     pv = d.get("pvals", {})
     if const_params:
